@@ -5,6 +5,8 @@ counterexample); the behaviour as a whole is NOT decided.  See DESIGN.md section
 P = {
 "C01": dict(
   decided={
+    "C22.k": "no expression constructor call of the visitor carries a skipws= / ws= keyword (modifiers reach expressions through the rule's parameter table only)",
+    "C22.j": "visit_rule_param by evaluation: explicit skipws / noskipws / ws modifiers are read the same whatever the metamodel-wide setting",
     "C22.h": "ws modifier: by evaluation over strings with and without escapes, the rule's whitespace set is exactly the characters the modifier names (newline iff \\n, carriage return iff \\r, tab iff \\t, blank iff a blank)",
     "C01.i": "attribute type over repeated assignments: the type recorded by the first assignment and the type later assignments are compared with are the same expression",
     "C01.a": "operator dispatch table (repeat operators, assignment operators, syntactic predicates) -> Arpeggio class / multiplicity agrees with docs and with the reader in process_node",
@@ -261,6 +263,8 @@ P = {
   technique="regex category algebra + guard analysis on the RegExMatch construction"),
 "C22": dict(
   decided={
+    "C22.k": "no expression constructor call of the visitor carries a skipws= / ws= keyword (modifiers reach expressions through the rule's parameter table only)",
+    "C22.j": "visit_rule_param by evaluation: explicit skipws / noskipws / ws modifiers are read the same whatever the metamodel-wide setting",
     "C01.c": "(shared with C01) rule modifiers (ws/skipws) are installed only on expressions whose _parse honours them",
     "C22.h": "ws modifier: by evaluation over strings with and without escapes, the rule's whitespace set is exactly the characters the modifier names (newline iff \\n, carriage return iff \\r, tab iff \\t, blank iff a blank)",
     "C22.b": "the Comment rule is looked up after all rules are visited and handed to the parser; ws escape table in visit_rule_params",
@@ -328,6 +332,7 @@ P = {
   technique="CFG must-pass-through + argument-forwarding lint over all loader call sites"),
 "C28": dict(
   decided={
+    "C28.f": "an error's location fields are assigned only by the exception constructors, TextXMetaModel.process and the resolver's handler (the sites that fill a location-less error completely)",
     "C28.a": "at every pos_to_linecol site the parser and the offset belong to the same model (ownership pairing); provider call sites hand over the owner of the reference",
     "C28.b": "each raise site passes line, col and filename of the owner",
     "C28.c": "the location fields of one raise are assigned in the same loop iteration",
@@ -367,6 +372,8 @@ P = {
   technique="obligation ledger over exceptional exits"),
 "C32": dict(
   decided={
+    "C32.e": "visit_assignment records the RREL provider and match rule of an object reference on the attribute under no further condition",
+    "C32.d": "every ObjCrossRef takes scope_provider, match_rule_name and cls unchanged from one and the same attribute description",
     "C32.c": "a provider built from an RREL string and one built from a parsed grammar expression are configured alike: every read of the expression's flags (use_proxy, importURI) in create_rrel_scope_provider comes after the string was parsed","C32.a": "candidate key list is [Cls.attr, *.attr, Cls.*, *.*], scanned first-hit with default fallback; grammar RREL tested before the scan",
            "C32.b": "register_scope_providers converts string values with the constructor the grammar path uses"},
   declined="nothing material",
